@@ -43,7 +43,7 @@ class TlcResult:
                 "wall_s": round(self.wall, 2), "violated": self.violated}
 
 
-_PRINT_RE = re.compile(r'^<<"@@", (".*")>>$')
+_PRINT_RE = re.compile(r'<<\s*"@@",\s*("(?:[^"\\]|\\.)*")\s*>>', re.S)
 
 
 def _unescape_tla_string(s):
@@ -53,14 +53,11 @@ def _unescape_tla_string(s):
 
 def parse_output(res, out):
     res.out = out
-    for line in out.splitlines():
-        m = _PRINT_RE.match(line)
-        if m:
-            try:
-                res.printed.append(json.loads(_unescape_tla_string(m.group(1))))
-            except Exception as e:  # pragma: no cover
-                raise TlcError("cannot decode printed value: %r (%s)" % (line[:200], e))
-            continue
+    for m in _PRINT_RE.finditer(out):
+        try:
+            res.printed.append(json.loads(_unescape_tla_string(m.group(1))))
+        except Exception as e:  # pragma: no cover
+            raise TlcError("cannot decode printed value: %r (%s)" % (m.group(0)[:200], e))
     m = None
     for m in re.finditer(r"(\d+) states generated, (\d+) distinct states found", out):
         pass
